@@ -23,7 +23,13 @@ Originals ==
     WireMsg(0, "d1", NOBLE, 2, ModulePadded, M1, Pad("a3"), DepBody("a1", 2)),          \* module-sent but foreign source
     WireMsg(0, NOBLE, "d1", 2, ModulePadded, M1, Zero32, Raw(1, 132)),                  \* module-sent, junk 132-byte body
     WireMsg(0, NOBLE, "d1", 2, ModulePadded, M1, Zero32, Raw(1, 40)),
-    [k |-> "short", len |-> 115, id |-> 1] }
+    [k |-> "short", len |-> 115, id |-> 1],
+    \* originals no honest Noble chain emitted but the attesters signed: other header / body versions, nonce 0, a caller
+    WireMsg(1, NOBLE, "d1", 3, Pad("a1"), R1, Zero32, Raw(1, 10)),
+    WireMsg(2, NOBLE, "d1", 2, ModulePadded, M1, Zero32, DepBody("a1", 2)),
+    WireMsg(0, NOBLE, "d1", 2, ModulePadded, M1, Zero32, BurnBody(7, KTok(MINT), B("j", "x1"), 2, Pad("a1"))),
+    DepOutMsg("a1", 0, 2),
+    WireMsg(0, NOBLE, "d1", 3, Pad("a1"), R1, B("j", "x1"), Raw(1, 10)) }
 NewCallers == IF Thorough THEN {Zero32, B("j", "x2"), Empty, Bytes(31, "junk")} ELSE {Zero32, B("j", "x2"), Empty}
 NewBodies  == IF Thorough THEN {Raw(2, 12), Raw(1, 0), Raw(2, 200), Raw(2, 201), DepBody("a1", 3)} ELSE {Raw(2, 12), Raw(2, 201), DepBody("a1", 3)}
 NewRcpts   == IF Thorough THEN {B("j", "x2"), Pad("a2"), Zero32, Empty, Bytes(31, "junk"), Bytes(33, "junk"), Bytes(64, "junk"), Bytes(96, "junk")}
